@@ -16,6 +16,38 @@ namespace occa {
     *this = load(c);
   }
 
+  // An integer literal gets the first type that can represent its value out of
+  //   (int, long) for decimal literals and (int, unsigned, long, unsigned long)
+  //   for binary, octal and hex ones, restricted by its u / l suffixes (C++ [lex.icon])
+  static primitive integerLiteral(const uint64_t magnitude,
+                                  const bool negative,
+                                  const bool isDecimal,
+                                  const bool unsigned_,
+                                  const int longs) {
+    const bool fitsInt32  = (magnitude <= (uint64_t) 0x7FFFFFFFULL);
+    const bool fitsUint32 = (magnitude <= (uint64_t) 0xFFFFFFFFULL);
+    const bool fitsInt64  = (magnitude <= (uint64_t) 0x7FFFFFFFFFFFFFFFULL);
+    const uint64_t value_ = (negative
+                             ? ((~magnitude) + 1)
+                             : magnitude);
+    if (unsigned_) {
+      if (!longs && fitsUint32) {
+        return primitive((uint32_t) value_);
+      }
+      return primitive((uint64_t) value_);
+    }
+    if (!longs && fitsInt32) {
+      return primitive((int32_t) value_);
+    }
+    if (!longs && !isDecimal && fitsUint32) {
+      return primitive((uint32_t) value_);
+    }
+    if (fitsInt64 || isDecimal) {
+      return primitive((int64_t) value_);
+    }
+    return primitive((uint64_t) value_);
+  }
+
   primitive primitive::load(const char *&c,
                             const bool includeSign) {
     bool loadedFormattedValue = false;
@@ -66,10 +98,11 @@ namespace occa {
       if ((C == 'B') || (C == 'X')) {
         loadedFormattedValue = true;
 
+        // Load the magnitude, the type depends on the suffix
         if (C == 'B') {
-          p = primitive::loadBinary(++c, negative);
+          p = primitive::loadBinary(++c, false);
         } else if (C == 'X') {
-          p = primitive::loadHex(++c, negative);
+          p = primitive::loadHex(++c, false);
         }
 
         if (p.type & primitiveType::none) {
@@ -81,6 +114,7 @@ namespace occa {
       }
     }
 
+    const char *cDigits = c;
     if (!loadedFormattedValue) {
       while (true) {
         if (('0' <= *c) && (*c <= '9')) {
@@ -93,6 +127,7 @@ namespace occa {
         ++c;
       }
     }
+    const char *cDigitsEnd = c;
 
     if (!loadedFormattedValue && !digits) {
       c = c0;
@@ -128,19 +163,7 @@ namespace occa {
 
     if (loadedFormattedValue) {
       // Hex and binary only handle U, L, and LL
-      if (longs == 0) {
-        if (unsigned_) {
-          p = p.to<uint32_t>();
-        } else {
-          p = p.to<int32_t>();
-        }
-      } else if (longs >= 1) {
-        if (unsigned_) {
-          p = p.to<uint64_t>();
-        } else {
-          p = p.to<int64_t>();
-        }
-      }
+      p = integerLiteral(p.to<uint64_t>(), negative, false, unsigned_, longs);
     } else {
       // Handle the multiple other formats with normal digits
       if (decimal || float_) {
@@ -150,20 +173,14 @@ namespace occa {
           p = (double) occa::parseDouble(std::string(c0, c - c0));
         }
       } else {
-        uint64_t value_ = parseInt(std::string(c0, c - c0));
-        if (longs == 0) {
-          if (unsigned_) {
-            p = (uint32_t) value_;
-          } else {
-            p = (int32_t) value_;
-          }
-        } else if (longs >= 1) {
-          if (unsigned_) {
-            p = (uint64_t) value_;
-          } else {
-            p = (int64_t) value_;
-          }
+        // A leading 0 starts an octal literal
+        const bool isOctal = (*cDigits == '0');
+        uint64_t magnitude = 0;
+        for (const char *cDigit = cDigits; cDigit < cDigitsEnd; ++cDigit) {
+          magnitude = ((magnitude * (isOctal ? 8 : 10))
+                       + (uint64_t) (*cDigit - '0'));
         }
+        p = integerLiteral(magnitude, negative, !isOctal, unsigned_, longs);
       }
     }
 
